@@ -67,8 +67,20 @@ def main():
     patch_file.write_text(diff)
     rc, o = sh(f"git -C /repo apply {patch_file}")
     if rc != 0:
-        print("patch does not apply to /repo:", o[:300])
-        return 1
+        # /repo has moved on (later fix: commits): try a three-way application against the blobs the patch was made from
+        rc, o = sh(f"git -C /repo apply --3way {patch_file}")
+        unmerged = sh("git -C /repo diff --name-only --diff-filter=U")[1].strip()
+        if rc != 0 or unmerged:
+            sh("git -C /repo reset -q --hard")
+            note = "patch no longer applies to the current /repo (the code it edits was changed by a later fix: commit); detection results below are from the last evaluation against the tree it applied to"
+            print("patch does not apply to /repo:", o[:200])
+            mf = out / "meta.json"
+            if mf.exists():
+                m = json.loads(mf.read_text())
+                m["note"] = note
+                mf.write_text(json.dumps(m, indent=1))
+            return 1
+        sh("git -C /repo reset -q")   # keep the merged result in the working tree only
     try:
         for pid in ALL:
             rc, o = sh(f"{PY} {V}/sa/check.py {pid} --tier quick", env={"VERIF_EVIDENCE_DIR": "/tmp/seed-evidence"})
@@ -79,6 +91,7 @@ def main():
                 detections[pid] = ["ANALYSIS-ERROR: " + " ".join(l for l in o.splitlines() if "ANALYSIS-ERROR" in l)[:200]]
     finally:
         sh("git -C /repo checkout -- .")
+        sh("git -C /repo clean -fdq pypika_tortoise")
         shutil.rmtree("/tmp/seed-evidence", ignore_errors=True)
         patch_file.unlink(missing_ok=True)
     rc, st = sh("git -C /repo status --short")
